@@ -791,6 +791,17 @@ func (e *specEnv) call(x *ast.CallExpr, sg *SGo) Val {
 	case "held":
 		v := arg(0)
 		return Val{T: sel(tr.C.hget(e.heap, tr.C.heldKey()), v.T), Ty: tBool}
+	case "at": // at(s, i): element at ABSOLUTE index i of the backing array of slice s (s[k] == at(s, off(s)+k));
+		// quantifying over absolute indices keeps arithmetic out of quantifier patterns
+		s, i := arg(0), e.coerce(arg(1), tInt)
+		st, ok := s.Ty.Underlying().(*types.Slice)
+		if !ok {
+			sfail("at(s, i) needs a slice")
+		}
+		es := tr.C.sortOf(st.Elem())
+		return Val{T: sel(sel(tr.C.hget(e.heap, tr.C.elemKey(es)), app("s.arr", s.T)), i.T), Ty: st.Elem()}
+	case "ref": // reference identity of a pointer, the backing array of a slice, or the dynamic value of an interface
+		return Val{T: refOf(arg(0)), Ty: types.Typ[types.UnsafePointer]}
 	case "released": // ghost: number of Unlock calls on a mutex so far
 		v := arg(0)
 		return Val{T: sel(tr.C.hget(e.heap, tr.C.relKey()), v.T), Ty: tInt}
@@ -851,12 +862,7 @@ func (e *specEnv) call(x *ast.CallExpr, sg *SGo) Val {
 	// ghost maps
 	if gm := tr.G.contracts.Ghosts[name]; gm != nil && len(x.Args) == 1 {
 		key, vt := e.ghostKey(gm)
-		v := arg(0)
-		ref := v.T
-		if _, ok := v.Ty.Underlying().(*types.Slice); ok {
-			ref = app("s.arr", v.T)
-		}
-		return Val{T: sel(tr.C.hget(e.heap, key), ref), Ty: vt}
+		return Val{T: sel(tr.C.hget(e.heap, key), refOf(arg(0))), Ty: vt}
 	}
 	// predicates
 	if p := tr.G.lookupPred(e.pkg, name); p != nil {
@@ -918,6 +924,17 @@ func (e *specEnv) call(x *ast.CallExpr, sg *SGo) Val {
 	}
 	sfail("unknown function %s in spec", exprString(x.Fun))
 	return Val{}
+}
+
+// refOf: the reference a ghost map is keyed by.
+func refOf(v Val) string {
+	switch v.Ty.Underlying().(type) {
+	case *types.Slice:
+		return app("s.arr", v.T)
+	case *types.Interface:
+		return app("i.val", v.T)
+	}
+	return v.T
 }
 
 // ghostKey: heap key and value type of a declared ghost map.
